@@ -60,6 +60,7 @@ std::string run_tree(const Cmd& c){
     }
     Tree tree(conf, pos, B, mode != 0);
     std::string out = dump(tree);
+    auto cur = pos;   // current data per original index (positions edited by mv)
     // queries
     while(a < c.size()){
         if(c.tok[a] != "|") return out + " || ?syntax";
@@ -109,6 +110,45 @@ std::string run_tree(const Cmd& c){
             long nz = 0;
             tree.applyToAllCells([&](long, auto&&, auto&& m, auto&& l){ if(m && m->get() != 0) nz++; if(l && l->get() != 0) nz++; });
             out += "nonzero=" + std::to_string(nz);
+        }
+        else if(q == "setrhs"){
+            // give every particle recognisable result values (as an executor would have accumulated)
+            tree.applyToAllLeaves([&](auto&& h, const long* idx, auto&&, auto&& rhs){
+                for(long p = 0 ; p < h.nbParticles ; ++p){ rhs[0][p] = 1000 + 7 * idx[p]; rhs[1][p] = -3 - 11 * idx[p]; }
+            });
+            out += "ok";
+        }
+        else if(q == "export"){
+            // getAllParticlesData / getAllParticlesRhs: entry i must hold the values of the particle inserted at position i
+            auto data = tree.getAllParticlesData();
+            auto rhs = tree.getAllParticlesRhs();
+            out += "E";
+            long bad = 0;
+            for(long i = 0 ; i < N ; ++i){
+                // which original particle's data / results ended up in slot i (decoded from the first extra value / first result)
+                const double x0 = (data[i][D] - 0.25) / 10.0;
+                const long od = (x0 >= 0 && x0 < double(N) && double(long(x0)) == x0) ? long(x0) : -1;
+                const long r0 = rhs[i][0] - 1000;
+                const long orr = (r0 >= 0 && r0 % 7 == 0 && r0 / 7 < N) ? r0 / 7 : -1;
+                out += " " + std::to_string(i) + "=" + std::to_string(od) + ":" + std::to_string(orr);
+                for(long v = 0 ; v < ND ; ++v) if(std::memcmp(&data[i][v], &cur[i][v], sizeof(double)) != 0) bad += 1;
+                if(rhs[i][0] != 1000 + 7 * i || rhs[i][1] != -3 - 11 * i) bad += 1;
+            }
+            out += " bad=" + std::to_string(bad);
+        }
+        else if(q == "mv"){
+            // edit in place the stored position of the particle whose original index is k
+            const long k = c.L(a++);
+            std::array<double, D> np; for(long j = 0 ; j < D ; ++j) np[j] = double(c.L(a++)) / scale;
+            long found = 0;
+            tree.applyToAllLeaves([&](auto&& h, const long* idx, auto&& d, auto&&){
+                for(long p = 0 ; p < h.nbParticles ; ++p) if(idx[p] == k){ for(long j = 0 ; j < D ; ++j){ d[j][p] = np[j]; cur[k][j] = np[j]; } found += 1; }
+            });
+            out += "moved=" + std::to_string(found);
+        }
+        else if(q == "rebuild"){
+            tree.rebuild();
+            out += dump(tree);
         }
         else if(q == "cv"){
             // C14: copy the bytes of every group's buffers elsewhere, view the copies through the raw-memory
